@@ -4,6 +4,6 @@
 #include <stdint.h>
 void vp_selftest(void);
 void vp_emit(uint64_t v) { printf("%llu\n", (unsigned long long)v); }
-void vp_pause(void) {} void vp_trap(void) { printf("trap\n"); } void vp_unreachable(void) { printf("unreachable\n"); }
-unsigned vp_left, vp_changed;
+void vp_pause(void) {} void vp_spin_hint(void) {} void vp_trap(void) { printf("trap\n"); } void vp_unreachable(void) { printf("unreachable\n"); }
+unsigned vp_left, vp_changed, vp_block_req;
 int main(void) { vp_selftest(); return 0; }
